@@ -36,3 +36,15 @@ def check_ratelimit(prop, tier, replay):
                   assumptions=["the in-memory rate limiter (internal/server/rate.go) is decided as a sequential "
                                "object: real InMemRateLimiter vs RateLimit.tla, lemmas OnlyWhenLarge / Releases / "
                                "GcBounded model-checked by MCRateLimit"])
+
+
+def check_msgqueue(prop, tier, replay):
+    return tv_run(prop, tier, replay, harness_dirs=["server"], pkg="internal/server", test="TestVerifMqsim",
+                  trace_module="MsgQueueTrace", tag="MQ-REPORT", batches=_batches(tier),
+                  env_of=_env, mc=[("MCMsgQueue", "MC_MsgQueue.cfg", 900, 8)], mc_deadlock=False,
+                  level="model_checking", build_name="rlsim", merge_into_existing=True,
+                  what="message queue of a replica: an accepted message was lost, duplicated, handed over early or out of order",
+                  sig_of=lambda op, f: "C17:msgqueue:%s" % op,
+                  assumptions=["the message queue between transport / NodeHost and the step worker (internal/server/message.go) "
+                               "is decided as a sequential object: real MessageQueue vs MsgQueue.tla; MCMsgQueue checks "
+                               "ExactlyOnce / DueHandedOver / NoEarlyDelivery exhaustively for a small queue"])
